@@ -9,7 +9,30 @@ SYNC_RW = {"sync": ["internal", "sdk"]}
 
 RAFT_ENV = {"BAO_RAFT_INITIAL_MMAP_SIZE": "4194304"}
 
+RAFT_ENV = {"BAO_RAFT_INITIAL_MMAP_SIZE": "4194304"}
+
 CHECKS = {
+    "C08": {
+        "level": "model_checking",
+        "rule": "every merge order of the steps of 2 (and 3) transaction/plain-write programs drawn from a 26-template "
+                "alphabet built to collide (write skew, phantoms, blind writes, RMW, paginated lists, read-your-writes, "
+                "read-only misuse, rollback), on every transactional stack; each step is compared with a serial reference "
+                "in commit order; states = (program set, initial state) scenarios, transitions = steps executed on the "
+                "implementation; non-trivial = distinct (stack, commits, conflicts, final state)",
+        "assumptions": [
+            "serial reference in commit order; value-based validation (A-B-A commits); spurious conflicts are allowed by "
+            "the statement ('commits only if') and only counted, except that a conflict with no committed change since "
+            "begin is a violation",
+            "PostgreSQL transactional backend not reachable offline",
+        ],
+        "units": [
+            {"name": "storage", "pkg": "./internal/verifh/storage", "run": "^TestVerifC08$",
+             "shards": {"quick": 16, "thorough": 16}, "timeout": {"quick": 900, "thorough": 3000}},
+            {"name": "raft", "pkg": "./internal/physical/raft", "run": "^TestVerifC08Raft$", "env": RAFT_ENV,
+             "ulimit_kb": 64 * 1024 * 1024,
+             "shards": {"quick": 16, "thorough": 16}, "timeout": {"quick": 600, "thorough": 3000}},
+        ],
+    },
     "C09": {
         "level": "model_checking",
         "rule": "every log up to the length bound over {6 plain writes, 5 transaction templates x every start index}; "
@@ -51,6 +74,16 @@ CHECKS = {
 
 # Per-property manifest text.
 META = {
+    "C08": {
+        "engines": "E0 E3",
+        "technique": "exhaustive enumeration of all interleavings of small transaction programs on the real backends vs serial commit-order reference",
+        "text": "Exhaustive within the bound: all interleavings of every pair (and selected triples) of 26 colliding transaction "
+                "programs on transactional inmem and all wrapping layers, plus the real raft backend with the FSM-apply "
+                "event owned by the harness (every lag shape up to the bound). Serializability is a property of "
+                "all schedules; for 2-3 short transactions the schedule space is finite and small enough to cover completely.",
+        "note": "Trusted: serial reference, error classification through errors.Is. Bounded: <=3 programs of <=5 steps, 6 keys. "
+                "PostgreSQL excluded. For raft, hashicorp/raft's goroutines run free but every event the oracle depends on is sequenced by the harness.",
+    },
     "C09": {
         "engines": "E0 E3",
         "technique": "explicit-state enumeration of logs x batchings x restart/snapshot positions on real FSM replicas vs serial value-based reference",
